@@ -504,6 +504,60 @@ func camRun(id, w, h int, rng *rand.Rand) camRec {
 	return rec
 }
 
+// ---------------------------------------------------------------- auto-framing camera
+
+type frameRec struct {
+	ID      int    `json:"id"`
+	Kind    string `json:"kind"`
+	Site    string `json:"site"`
+	Box     []int  `json:"box"`
+	Dir     []int  `json:"dir"`
+	Inside  []bool `json:"inside"`
+	InFront []bool `json:"infront"`
+	Panic   string `json:"panic"`
+}
+
+func frameRun(id int, rng *rand.Rand) frameRec {
+	rec := frameRec{ID: id, Kind: "frame", Site: "DirectionalCamera", Inside: []bool{}, InFront: []bool{}}
+	lo := []int{rng.Intn(7) - 3, rng.Intn(7) - 3, rng.Intn(7) - 3}
+	hi := []int{lo[0] + 1 + rng.Intn(5), lo[1] + 1 + rng.Intn(5), lo[2] + 1 + rng.Intn(5)}
+	rec.Box = append(append([]int{}, lo...), hi...)
+	dir := []int{rng.Intn(5) - 2, rng.Intn(5) - 2, rng.Intn(5) - 2}
+	if dir[0] == 0 && dir[1] == 0 && dir[2] == 0 {
+		dir = []int{1, 1, 1}
+	}
+	rec.Dir = dir
+	obj := &ColliderObjectBox{lo: model3d.XYZ(float64(lo[0]), float64(lo[1]), float64(lo[2])),
+		hi: model3d.XYZ(float64(hi[0]), float64(hi[1]), float64(hi[2]))}
+	rec.Panic = protect(func() {
+		d := model3d.XYZ(float64(dir[0]), float64(dir[1]), float64(dir[2])).Normalize()
+		// the helper frames the object for its own field of view (pi / 3.6); ask for that one
+		cam := render3d.DirectionalCamera(obj, d, math.Pi/3.6)
+		un := cam.Uncaster(1, 1)
+		zAxis := cam.ScreenX.Cross(cam.ScreenY)
+		for _, x := range []float64{obj.lo.X, obj.hi.X} {
+			for _, y := range []float64{obj.lo.Y, obj.hi.Y} {
+				for _, z := range []float64{obj.lo.Z, obj.hi.Z} {
+					c := model3d.XYZ(x, y, z)
+					sx, sy := un(c)
+					rec.Inside = append(rec.Inside, sx >= 0.05-1e-6 && sx <= 0.95+1e-6 && sy >= 0.05-1e-6 && sy <= 0.95+1e-6)
+					rec.InFront = append(rec.InFront, c.Sub(cam.Origin).Dot(zAxis) > 0)
+				}
+			}
+		}
+	})
+	return rec
+}
+
+// ColliderObjectBox is a render3d.Object that is just a box (only its bounds matter here)
+type ColliderObjectBox struct{ lo, hi model3d.Coord3D }
+
+func (c *ColliderObjectBox) Min() model3d.Coord3D { return c.lo }
+func (c *ColliderObjectBox) Max() model3d.Coord3D { return c.hi }
+func (c *ColliderObjectBox) Cast(r *model3d.Ray) (model3d.RayCollision, render3d.Material, bool) {
+	return model3d.RayCollision{}, nil, false
+}
+
 func init() {
 	register("c20-scene", func(a args) {
 		rng := rand.New(rand.NewSource(int64(a.int("seed", 1))))
@@ -518,6 +572,12 @@ func init() {
 				stats["records"]++
 				stats["site:"+site]++
 			}
+		}
+		for i := 0; i < a.int("frames", 60); i++ {
+			id++
+			out.write(frameRun(id, rng))
+			stats["records"]++
+			stats["site:frame"]++
 		}
 		for i := 0; i < a.int("shadows", 30); i++ {
 			id++
